@@ -338,6 +338,19 @@ Theorem C03_rects_inside_requested_before_fix_refuted :
            (pl_region (plan_regions_old caps_init (mkSends false false false false false false) (f22_snap 83))).
 Proof. exact f22_before_fix. Qed.
 
+(* ---- F26: the count statement WITHOUT the hypothesis [snap_ok] is false, and the library itself produces the
+   counterexample: rfbScheduleCopyRegion ORs the rectangle of a cursor of height 0 into modifiedRegion; that region
+   is "not empty" without containing a pixel (cf. C11_degenerate_refuted).  On the observed snapshot the update flow
+   announces 8 rectangles and emits 4 (two of height 0).  Witness corpus/C03/F26_zero_height_cursor_copy.script
+   is replayed on the implementation on every run; proposed repair notes/fix_C03_9.diff. *)
+Theorem C03_update_count_degenerate_region_refuted :
+  rgn_is_empty (sn_mod f26_snap) = false /\
+  (forall x y, rgn_mem (sn_mod f26_snap) x y = false) /\
+  exists hs, snd (model_update f26_cfg f26_caps f26_snap) = USent 8 hs false false /\
+             phdr_count hs = Some 4 /\
+             hs = [PH (1, 0, 6, 2, enc_CopyRect); PH (4, 2, 3, 0, enc_CopyRect); PH (1, 2, 2, 0, enc_CopyRect); PH (1, 2, 6, 2, enc_CopyRect)].
+Proof. exact f26_witness. Qed.
+
 (* ---- refutations: the faithful model violates the full statement; each witness is replayed on
    the real library by props/C03.py (findings F4, F4b, F5, F6) ---- *)
 
